@@ -311,3 +311,63 @@ func shortFn(f *ssa.Function) string {
 	s = strings.ReplaceAll(s, istioMod+"/", "")
 	return s
 }
+
+// extractedFrom: fn is not in a frozen who-may table itself, but it is a helper extracted from a listed function: it is
+// unexported, not used as a value, has at least one call site, and every call site lies in a listed function (or in such
+// a helper, one more level). Returns the listed function it belongs to. The reason frozen for the listed function covers
+// the code that was moved out of it; anything reachable from elsewhere is NOT covered.
+func (p *Prog) extractedFrom(fn *ssa.Function, listed func(*ssa.Function) bool, depth int) *ssa.Function {
+	root := fn
+	for root.Parent() != nil {
+		root = root.Parent()
+	}
+	if listed(root) {
+		return root
+	}
+	if depth == 0 || root.Object() == nil || root.Object().Exported() {
+		return nil
+	}
+	sites := p.staticCallers()[root]
+	if len(sites) == 0 {
+		return nil
+	}
+	// used as a value anywhere?
+	if p.addrTakenMemo == nil {
+		p.addrTakenMemo = map[*ssa.Function]bool{}
+		for _, f := range p.AllFuncs {
+			if !isIstioFunc(f) {
+				continue
+			}
+			eachInstr(f, func(ins ssa.Instruction) {
+				var callee ssa.Value
+				if ci, ok := ins.(ssa.CallInstruction); ok {
+					callee = ci.Common().Value
+				}
+				for _, op := range ins.Operands(nil) {
+					if op == nil || *op == nil {
+						continue
+					}
+					if g, ok := (*op).(*ssa.Function); ok && *op != callee {
+						p.addrTakenMemo[g] = true
+					}
+				}
+			})
+		}
+	}
+	if p.addrTakenMemo[root] {
+		return nil
+	}
+	var owner *ssa.Function
+	for _, cs := range sites {
+		par := cs.Parent()
+		if strings.HasSuffix(p.Fset.Position(par.Pos()).Filename, "_test.go") {
+			continue
+		}
+		o := p.extractedFrom(par, listed, depth-1)
+		if o == nil {
+			return nil
+		}
+		owner = o
+	}
+	return owner
+}
